@@ -520,7 +520,13 @@ impl TaskEmitter {
         };
         *seq += 1;
 
+        #[cfg(rip_verif)]
+        let verif_ctx = format!("{}:{}", event.session_id, event.seq);
+        #[cfg(rip_verif)]
+        rip_kernel::verif::point("emit.before_publish", &verif_ctx);
         let _ = self.sender.send(event.clone());
+        #[cfg(rip_verif)]
+        rip_kernel::verif::point("emit.after_publish", &verif_ctx);
         let mut guard = self.events.lock().await;
         guard.push(event.clone());
         let _ = self.event_log.append(&event);
